@@ -624,7 +624,24 @@ def install_builtins(I):
         interp.mutating(l)
         l[:] = _sorted(interp, l, key=key, reverse=reverse)
 
-    LIST_M = dict(append=l_append, extend=l_extend, insert=l_insert, pop=l_pop, index=l_index, remove=l_remove,
+    def l_popleft(interp, l):
+        if not isinstance(l, Deque):
+            interp.raise_py("AttributeError", "'list' object has no attribute 'popleft'")
+        return l_pop(interp, l, 0)
+
+    def l_appendleft(interp, l, x):
+        if not isinstance(l, Deque):
+            interp.raise_py("AttributeError", "'list' object has no attribute 'appendleft'")
+        return l_insert(interp, l, 0, x)
+
+    def l_extendleft(interp, l, xs):
+        if not isinstance(l, Deque):
+            interp.raise_py("AttributeError", "'list' object has no attribute 'extendleft'")
+        for x in interp.iterate(xs):
+            l_insert(interp, l, 0, x)
+
+    LIST_M = dict(popleft=l_popleft, appendleft=l_appendleft, extendleft=l_extendleft,
+                  append=l_append, extend=l_extend, insert=l_insert, pop=l_pop, index=l_index, remove=l_remove,
                   count=l_count, copy=l_copy, reverse=l_reverse, clear=l_clear, sort=l_sort)
     TUPLE_M = dict(index=l_index, count=l_count)
     RANGE_M = dict(index=lambda interp, r, x: interp.native(lambda: r.index(x)))
@@ -933,7 +950,13 @@ def install_builtins(I):
         return interp.note_fresh(d)
 
     I.DDict = DDict
-    NM["collections"] = dict(defaultdict=NativeFn(_defaultdict, "defaultdict"), OrderedDict=B["dict"])
+
+    def _deque(interp, xs=(), maxlen=None):
+        if maxlen is not None:
+            raise Unsupported("collections.deque with maxlen")
+        return interp.note_fresh(Deque(interp.iterate(xs)))
+
+    NM["collections"] = dict(defaultdict=NativeFn(_defaultdict, "defaultdict"), OrderedDict=B["dict"], deque=NativeFn(_deque, "deque"))
     NM["warnings"] = dict(warn=NativeFn(lambda interp, *a, **k: None, "warn"))
     NM["sys"] = dict(stderr=Opaque("stderr"), stdout=Opaque("stdout"), argv=[])
     NM["copy"] = dict(copy=NativeFn(lambda interp, x: interp.note_fresh(list(x)) if isinstance(x, list) else interp.note_fresh(dict(x)) if isinstance(x, dict) else x, "copy"))
@@ -948,6 +971,10 @@ def install_builtins(I):
     from .pyapi import install_api
 
     install_api(I)
+
+
+class Deque(list):
+    """collections.deque (unbounded): a list with popleft / appendleft / extendleft; indexing, len, truth, iteration as a list"""
 
 
 class SymRange(NativeObj):
